@@ -97,7 +97,9 @@ def run(F, chk):
                 continue
             fresh = is_node(rhs) and rhs["k"] == "Unary" and rhs["op"] == "++" and rhs.get("post") and \
                 _is_member(rhs["e"], "newIndex", SORTSTATE)
-            guarded = all(any(_canon(e, al) == x and "visitedIndices" in v for v, e in flow.notin_guards(st)) for st in sts)
+            _, xn = F.expander(fn)  # `const auto& visited = sortState.visitedIndices;` is that container
+            guarded = all(any(_canon(e, al) == x and ("visitedIndices" in v or "visitedIndices" in xn.get(v, ""))
+                              for v, e in flow.notin_guards(st)) for st in sts)
             marked = ("mark:" + x) not in leftover
             ok = fresh and guarded and marked
             chk.instance(R1, ok=ok, sample={"fn": fn["name"], "store": show(n), "fresh": fresh, "guarded": guarded, "marked": marked})
@@ -160,9 +162,10 @@ def run(F, chk):
     chk.floor(R2, 4)
 
     # ------------------------------------------------------------------ R4.3
-    sbo = F.fn1("nifly::NiHeader::SetBlockOrder")
+    sbo = F.inl(F.fn1("nifly::NiHeader::SetBlockOrder"))
     param = sbo["params"][0]["name"]
     body = sbo["body"]
+    xshow, xnames = F.expander(sbo)  # hoisted locals (`const uint32_t newIndex = newOrder[i];`) read as their initialiser
     scattered = {}
     for n in walk(body):
         tgt = src = None
@@ -170,10 +173,10 @@ def run(F, chk):
             tgt, src = n["l"], n["r"]
         elif n["k"] == "OpCall" and n.get("op") == "=" and len(n.get("args", [])) == 2:
             tgt, src = n["args"]
-        if is_node(tgt) and tgt["k"] == "Subscript" and show(tgt["idx"]).startswith(param + "["):
+        if is_node(tgt) and tgt["k"] == "Subscript" and xshow(tgt["idx"]).startswith(param + "["):
             for t in ("blockTypeIndices", "blockSizes", "blocks"):
                 if t in show(src):
-                    scattered[t] = (show(tgt["base"]), show(tgt["idx"]), n)
+                    scattered[t] = (show(tgt["base"]), xshow(tgt["idx"]), n)
     moved = {}
     for n in walk(body):
         tgt = src = None
@@ -193,7 +196,7 @@ def run(F, chk):
                           "blocks than the block list holds" % t)
     if "blockSizes" in scattered:
         sig = pairing.guard_sig(F, sbo, [scattered["blockSizes"][2]])
-        ok = any("File()" in k for k, p in sig[id(scattered["blockSizes"][2])])
+        ok = any("File()" in k or "File()" in xnames.get(k, "") for k, p in sig[id(scattered["blockSizes"][2])])
         chk.instance(R3, ok=ok, sample={"blockSizes_gate": ok})
         if not ok:
             chk.violation("R4.3", "C04/R4.3:SetBlockOrder:blockSizes-gate", where(sbo),
@@ -240,7 +243,8 @@ def run(F, chk):
             chk.violation("R4.3", "C04/R4.3:SetBlockOrder:%s" % k, where(sbo),
                           "SetBlockOrder does not rewrite the references reported by %s through the new order" % k)
     first = body["body"][0] if body["body"] else None
-    ok = is_node(first) and first["k"] == "If" and "%s.size()" % param in show(first["cond"]) and "numBlocks" in show(first["cond"]) \
+    first = next((x for x in (body["body"] or []) if x["k"] != "Decl"), first)  # declarations of hoisted values may come first
+    ok = is_node(first) and first["k"] == "If" and "%s.size()" % param in xshow(first["cond"]) and "numBlocks" in xshow(first["cond"]) \
         and any(x["k"] == "Return" for x in walk(first["then"]))
     chk.instance(R3, ok=ok, sample={"size_mismatch_early_return": ok})
     if not ok:
